@@ -502,7 +502,7 @@ class ArgumentParser(ParserDeprecations, ActionsContainer, ArgumentLinking, argp
                 cfg = self.merge_config(cfg_base, cfg)
 
             cfg = self._apply_actions(cfg)
-            cfg_apply = self._apply_actions(cfg_obj, prev_cfg=cfg)
+            cfg_apply = self._apply_actions(recreate_branches(cfg_obj), prev_cfg=cfg)
             cfg = self.merge_config(cfg_apply, cfg)
 
             parsed_cfg = self._parse_common(
